@@ -1,11 +1,9 @@
 /-
 Helper lemmas for C07, hard-link resolution (`Sqfs/Model/HardLink.lean`).
 -/
-import Sqfs.Model.HardLink
+import Sqfs.Spec.HardLink
+import Batteries.Data.List.Perm
 namespace Sqfs.HardLink
-
-/-- node `i` exists and is not a hard link -/
-def NonLink (g : Graph) (i : Nat) : Prop := g[i]? = some .other ∨ g[i]? = some .dir
 
 /-- every recorded resolution points to an existing non-link node (what `resolve_link` stores) -/
 def ResOK (g : Graph) (res : Nat → Option Nat) : Prop := ∀ k t, res k = some t → NonLink g t
